@@ -263,3 +263,29 @@ def search_project_render():
 
 def count_cases():
     return sum(1 for _ in attach_cases()), sum(1 for _ in render_cases())
+
+
+def include_cases():
+    """declarations pulled in with INCLUDE are read with the markers of the including file: the same entities and documentation as when they are written in place"""
+    decls = ["  integer :: first", "  !> doc before second", "  integer :: second", "  integer :: third", "  !* block after third", "  ! goes on here", "", "  integer :: fourth", "  !! plain doc of fourth",
+             "  !| block before fifth", "  ! still before fifth", "  integer :: fifth"]
+    marks = dict(docmark="!", predocmark=">", docmark_alt="*", predocmark_alt="|")
+    inplace = "module m\n  implicit none\n" + "\n".join(decls) + "\nend module m\n"
+    including = "module m\n  implicit none\n  include 'decls.inc'\nend module m\n"
+    sf = loader.import_repo("ford.sourceform")
+    st = loader.import_repo("ford.settings")
+    res = []
+    for files, main in (({"m.f90": inplace}, "m.f90"), ({"m.f90": including, "decls.inc": "\n".join(decls) + "\n"}, "m.f90")):
+        realrun.reset_names()
+        with realrun.project_dir(files) as d:
+            import os, io, contextlib
+            with contextlib.redirect_stdout(io.StringIO()), contextlib.redirect_stderr(io.StringIO()):
+                try:
+                    f = sf.FortranSourceFile(os.path.join(d, main), st.ProjectSettings(preprocess=False, quiet=True, warn=False, **marks))
+                    res.append([(v.name, [x.strip() for x in v.doc_list if x.strip()]) for v in f.modules[0].variables])
+                except Exception as e:
+                    res.append(f"{type(e).__name__}: {e}")
+    if res[0] != res[1]:
+        return {"confirmed": True, "input": {"declarations": decls, "markers": marks}, "actual": {"included": res[1]}, "expected": {"written in place": res[0]},
+                "how": "real parser: the same declarations written in the module and pulled in with INCLUDE"}
+    return None
